@@ -272,6 +272,11 @@ class Intervals:
             b = A(1)
             if b[0] > 0 and b[1] != INF: return (0, b[1] - 1)
             return top
+        if op in ("and", "or", "xor") and not (i["t"] == "i1" and op == "xor"):
+            a0 = A(0); b0 = A(1)
+            if a0[0] == a0[1] and b0[0] == b0[1] and 0 <= a0[0] != INF and 0 <= b0[0] != INF:
+                v = {"and": int(a0[0]) & int(b0[0]), "or": int(a0[0]) | int(b0[0]), "xor": int(a0[0]) ^ int(b0[0])}[op]      # both operands known exactly
+                return (v, v)
         if op == "and":
             a = A(0); b = A(1)
             hi = min(x for x in (a[1], b[1]) if True)
